@@ -497,6 +497,21 @@ SPARSE_SPACES = [
 ]
 
 
+def base_families(spec):
+  if spec['k'] == 'base':
+    return {spec['fam']}
+  out = set()
+  for sub in (spec['kids'] if spec['k'] in ('switch', 'multi') else [spec['e']]):
+    out |= base_families(sub)
+  return out
+
+
+def tolerates_out_of_bounds(spec):
+  """base objectives that are plain formulas (the optproblems bases check their bounds): only
+  over those may a shift be applied without restricting the search space"""
+  return base_families(spec) <= {'bbob', 'branin', 'hartmann', 'dh'}
+
+
 def gen_wrapper(rng, inner_spec, inner_node, level, allow):
   """A wrapper spec valid for the wrapped real experimenter, or None."""
   vz = M()['vz']
@@ -518,7 +533,8 @@ def gen_wrapper(rng, inner_spec, inner_node, level, allow):
   k = rng.choice(choices)
   if k == 'shift':
     d = gen_shift(rng, problem)
-    return {'k': 'shift', 's': d['s'], 'vec': d['vec'], 'restrict': rng.random() < 0.75, 'e': inner_spec}
+    restrict = rng.random() < 0.75 or not tolerates_out_of_bounds(inner_spec)
+    return {'k': 'shift', 's': d['s'], 'vec': d['vec'], 'restrict': restrict, 'e': inner_spec}
   if k == 'signflip':
     return {'k': 'signflip', 'objOnly': rng.random() < 0.7, 'e': inner_spec}
   if k == 'permute':
